@@ -63,7 +63,7 @@ theorem computeY_none_iff (sqrt : Fp → Option Fp) (x : Fp) (largest : Bool) :
     by_cases hl : Fp.lexLargest r = largest <;> simp [hs, hl]
 
 /-- the zero input short-circuits to the root zero -/
-theorem sqrtPrecomp_zero (lut : Array Nat) : Fp.sqrtPrecomp lut (0 : Fp) = some 0 := by
+theorem sqrtPrecomp_zero : Fp.sqrtPrecomp (0 : Fp) = some 0 := by
   unfold Fp.sqrtPrecomp
   have : (0 : Fp).val = 0 := by decide
   simp [this]
